@@ -42,7 +42,10 @@ package retention
 //@ func (*Service).handle
 //@   ghost upd bool = false
 //@   ghost ue Iface = nil
+// The tables of shards / indexes the store has not loaded are built anew, EMPTY, for every check: an entry left from an
+// earlier check carries the duration the policy had then and would expire a shard whose duration was raised since.
 //@   call (*Service).updateDurationInfo
+//@     requires [not_loaded_tables_start_empty] len(deref(arg0)) == 0 && len(deref(arg1)) == 0
 //@     set upd = true
 //@     set ue = ret0
 //@   call (*Service).HandleLocalStorage
